@@ -235,7 +235,7 @@ def t_sleep(dt):
     W.sys_enter('sleep')
     if dt < 0:
         raise ValueError('sleep length must be non-negative')
-    W.sleep(_us(dt))
+    W.sleep_interruptible(_us(dt))
     W.log('sleep', (dt,), None)
 
 
@@ -353,6 +353,10 @@ class SimPoll(object):
         W.sys_enter('poll')
         if timeout is not None and timeout < 0:
             timeout = None
+        if timeout is not None and timeout > 2147483647:
+            # milliseconds in a C int: what the real poll() object says to anything above 24.8 days
+            W.log('poll', (tuple(self.reg), timeout), 'OverflowError')
+            raise OverflowError('timeout is too large')
         if not self._events() and (timeout is None or timeout > 0):
             W.wait_interruptible(lambda: bool(self._events()),
                                  None if timeout is None else int(round(timeout * 1000.0)), 'poll')
@@ -652,7 +656,7 @@ class FakeSocket(object):
             if not end.readable():
                 if t is not None and t == 0:
                     raise BlockingIOError(errno.EAGAIN, 'Resource temporarily unavailable')
-                ok = W.block(end.readable, None if t is None else _us(t), 'recv')
+                ok = W.wait_plain(end.readable, None if t is None else _us(t), 'recv')
                 if not ok:
                     raise _socket.timeout('timed out')
             data = end.read_now(n)
